@@ -4,12 +4,14 @@ package tres
 
 import (
 	"context"
+	"errors"
 
 	"github.com/cosi-project/runtime/pkg/resource"
 	"github.com/cosi-project/runtime/pkg/state"
 	"github.com/cosi-project/runtime/zzverif/verif"
 	"github.com/cosi-project/runtime/pkg/resource/meta"
 	"github.com/cosi-project/runtime/pkg/resource/meta/spec"
+	"github.com/cosi-project/runtime/pkg/resource/protobuf"
 	"github.com/cosi-project/runtime/pkg/resource/typed"
 )
 
@@ -275,4 +277,25 @@ func (ip *Interpose) CallerWrites() []Write {
 		}
 	}
 	return ws
+}
+
+// MarshalProto / UnmarshalProto give the spec a wire form without reflection:
+// one byte for N followed by the bytes of S (S must be a concrete string when marshalled).
+func (s *Spec) MarshalProto() ([]byte, error) {
+	return append([]byte{byte(s.N)}, []byte(s.S)...), nil
+}
+
+func (s *Spec) UnmarshalProto(b []byte) error {
+	if len(b) == 0 {
+		return errors.New("empty spec")
+	}
+	s.N = int64(b[0])
+	s.S = string(b[1:])
+	return nil
+}
+
+// RegisterProto registers the resource types with the protobuf registry.
+func RegisterProto() {
+	protobuf.RegisterResource(TypeA, &A{}) //nolint:errcheck
+	protobuf.RegisterResource(TypeB, &B{}) //nolint:errcheck
 }
